@@ -58,7 +58,7 @@ func (st *State) constVal(t types.Type, c constant.Value) Val {
 	if n, ok := numOf(t); ok {
 		if n.Float {
 			f, _ := constant.Float64Val(constant.ToFloat(c))
-			return VScalar{Const(BV(n.Bits), new(big.Int).SetUint64(float64bits(f, n.Bits)))}
+			return VScalar{Const(e.ar.Sort(n), new(big.Int).SetUint64(float64bits(f, n.Bits)))}
 		}
 		iv := constant.ToInt(c)
 		if iv.Kind() != constant.Int {
